@@ -137,6 +137,8 @@ def ap_check_tx_validity():
         requires=[
             C("outputs_fit", "outputs_fit(*tx)", note="established by load_relevant_coins' overflow guard"),
             C("inputs_fit", "fsum(tx.inputs@, in_value(relevant_coins@)) <= u128::MAX", note="C09 envelope: the values of the coins a transaction spends fit in u128 (supply <= 2^127; `overflow_coins` pins the panic outside it)"),
+            C("fallback", "!this.history@.contains_key(prev_height(*this)) ==> seal_fallback_pre(*this)",
+              note="when the history has no previous header (height 0 only) the function seals a clone of this state to obtain one: the state then has to satisfy the preconditions of sealing (part of batch_pre at height 0)"),
             C("small", "tx.inputs@.len() <= 256", envelope_of="F-C04-index", note="the environment's spender index is `i as u8`"),
             C("distinct_cov", "forall|a: int, b: int| 0 <= a < b < tx.inputs@.len() && relevant_coins@.contains_key(tx.inputs@[a]) && relevant_coins@.contains_key(tx.inputs@[b]) ==> relevant_coins@[tx.inputs@[a]].coin_data.covhash != relevant_coins@[tx.inputs@[b]].coin_data.covhash", envelope_of="F-C04-cache"),
         ],
